@@ -53,6 +53,7 @@ type FileSpec struct {
 	// FileOffset: what ColumnChunk.file_offset holds - "start" (first page of the chunk), "zero" (newer writers) or
 	// "end" (older writers stored the position of the chunk's trailing metadata); readers must go by data_page_offset
 	FileOffset string
+	LongForm   bool // thrift field headers with explicit ids instead of deltas
 }
 
 // PlainEncode encodes values of a physical type.
@@ -345,8 +346,11 @@ func deltaBinaryPacked(vals []int64) []byte {
 	return out
 }
 
+// longFormFields makes every thrift struct of the file being written use explicit field ids (set per file by WriteFile)
+var longFormFields bool
+
 func thriftBytes(s *TSt) []byte {
-	e := &TEnc{}
+	e := &TEnc{LongForm: longFormFields}
 	e.Struct(s)
 	return e.B
 }
@@ -653,6 +657,8 @@ func valKey(v Val) string { return fmt.Sprintf("%x/%x", v.Bits, v.Bytes) }
 // WriteFile emits the file.  It returns the bytes and, for every chunk in
 // order, the offset of its first page.
 func WriteFile(spec FileSpec) ([]byte, error) {
+	longFormFields = spec.LongForm
+	defer func() { longFormFields = false }()
 	out := append([]byte{}, Magic...)
 	var rgs []TVal
 	var ccs []*TSt
